@@ -18,7 +18,7 @@ FUNCTIONS = ['functions:add_plugin', 'functions:remove_plugin', 'functions:reset
 BOUNDS = {'quick': {'histories': 'all call sequences of length <= 3 over {add, remove, reset} x 3 plugins x 2 scopes (each position a solver-chosen '
                     'symbol), length 4 for one scope; contracts / interfaces / aliases: all sequences of length <= 4 over their alphabets',
                     'registry_pre_states': 'lists of 0..4 distinct entries for the one-operation lemma'},
-          'thorough': {'histories': 'length <= 5 for plugins (two scopes), <= 6 for one scope and for the other registries',
+          'thorough': {'histories': 'length <= 5 for plugins (two scopes), <= 6 for one scope, <= 5 for the other registries (12 operations per position)',
                        'registry_pre_states': '0..4 entries'}}
 OUTSIDE = ['histories longer than the bound (the one-operation lemma from an arbitrary registry state covers every length for plugins)',
            'random longer histories of the property text: sampling is not this technique']
@@ -509,7 +509,7 @@ HARNESSES = [
     HarnessSpec('onestep', h_onestep, [{'n_pre': n} for n in range(5)] + [{'n_pre': n, 'kind': k} for n in (1, 2, 3) for k in ('method', 'eq_object')],
                 witness_replay=True, witness_every=3, replay=r_onestep, fresh_pkg=True, signature=_sig),
     HarnessSpec('history_plugins', h_history_plugins, _p_hist, witness_replay=True, witness_every=40, replay=r_history_plugins, fresh_pkg=True, signature=_sig),
-    HarnessSpec('history_contracts', h_history_contracts, lambda t: [{'length': n} for n in ((1, 2, 3, 4) if t == 'quick' else (1, 2, 3, 4, 5, 6))],
+    HarnessSpec('history_contracts', h_history_contracts, lambda t: [{'length': n} for n in ((1, 2, 3, 4) if t == 'quick' else (1, 2, 3, 4, 5))],
                 fresh_pkg=True, signature=_sig, replay=r_history_contracts, witness_replay=True, witness_every=200),
     HarnessSpec('independence', h_independence, _p_indep, replay=r_independence, fresh_pkg=True, signature=_sig),
     HarnessSpec('caller_dicts', h_caller_dicts, fresh_pkg=True),
